@@ -18,7 +18,7 @@ ASSUMPTIONS = ["row order is not compared (no top-level ORDER BY is generated)",
 TIMEOUT = {"quick": 400, "thorough": 900}
 MIN_NONTRIVIAL = {"quick": 80, "thorough": 1000}
 REQUIRED_COUNTERS = ["executed_before", "executed_after"]
-N = 6000
+N = 3000
 
 
 def cases(tier, seed):
